@@ -25,7 +25,7 @@ func init() {
 		NonTrivial: func(o *Outcome) bool {
 			return o.Hist.Probes["probe-pairs-compared"] > 0 && o.Hist.Probes["reloads"] > 0
 		},
-		Rule:         "seeded sequences of 1-5 valid configurations derived by random mutations (server: min-length / filter / compress profile / cache / location list set and unset; location: rewrite, added headers, added query, upstream; upstream: server set, Accept-Encoding, policy; add / remove of a server, a location, a compress profile, the bestCompression override, a cache; restart-only settings of surviving caches held constant as documented), applied by a reload task whose steps interleave with client traffic at every yield point. Then a fixed probe battery (servers x paths x Accept-Encoding x sizes around the thresholds x content types, every probe sent twice) is answered by the live-updated instance, the process image is replaced by a fresh instance started with the final configuration only (same simulated world), and the same battery is answered again: the observation vectors (origin reached, request as the origin saw it, status, headers, Content-Encoding, encoded length, cache label) must be equal, and paths under /var/ reach the origin rewritten by the final configuration's rules and no others. Also: requests to the unchanged server never fail during updates, its cached entries survive, a removed server refuses service after the 10s grace. non-trivial = at least one reload happened and one probe pair was compared; distinct = distinct history hash",
+		Rule:         "seeded sequences of 1-5 valid configurations derived by random mutations (server: min-length / filter / compress profile / cache / location list set and unset; location: rewrite, added headers, added query, upstream; upstream: server set, Accept-Encoding, policy; add / remove of a server, a location, a compress profile, the bestCompression override, a cache; restart-only settings of surviving caches held constant as documented), applied by a reload task whose steps interleave with client traffic at every yield point (in a quarter of the plans the unchanged upstream lists a black-holed server first, so that every rebuild of it spends 3 s in its first health check; requests also go to the servers that updates add and remove). Then a fixed probe battery (servers x paths x Accept-Encoding x sizes around the thresholds x content types, every probe sent twice) is answered by the live-updated instance, the process image is replaced by a fresh instance started with the final configuration only (same simulated world), and the same battery is answered again: the observation vectors (origin reached, request as the origin saw it, status, headers, Content-Encoding, encoded length, cache label) must be equal, and paths under /var/ reach the origin rewritten by the final configuration's rules and no others. Also: requests to the unchanged server never fail during updates, its cached entries survive, a removed server refuses service after the 10s grace. non-trivial = at least one reload happened and one probe pair was compared; distinct = distinct history hash",
 		ExpectProbes: []string{"probe-pairs-compared", "reloads", "stable-request-during-reload", "stable-entry-hit-after-reload", "removed-server-refused-after-grace", "optional-field-unset", "server-added", "server-removed", "two-servers-removed-in-one-update", "rewrite-of-final-configuration-checked"},
 	})
 }
@@ -47,6 +47,7 @@ type c16State struct {
 	c2Size                                  int
 	c1Size                                  int
 	c2Store                                 string
+	u1Dead                                  bool // u1 lists a black-holed server first: every (re)build of it takes a 3s health check
 }
 
 func (st *c16State) config() Config {
@@ -71,7 +72,7 @@ func (st *c16State) config() Config {
 		c.Caches = append(c.Caches, CacheCfg{Name: "c3", Size: 500, HitForPass: "2s", Store: st.c2Store})
 	}
 	c.Upstreams = []UpstreamCfg{
-		{Name: "u1", Policy: "first", Servers: []UpstreamSrv{{Addr: "http://" + originA}}},
+		{Name: "u1", Policy: "first", Servers: st.u1Servers()},
 		{Name: "u2", Policy: st.u2Policy, AcceptEncoding: st.u2AE, Servers: st.u2Servers()},
 		{Name: "u3", Policy: "first", Servers: []UpstreamSrv{{Addr: "http://" + originC}}},
 	}
@@ -121,6 +122,15 @@ func (st *c16State) config() Config {
 		c.Servers = append(c.Servers, ServerCfg{Addr: srvAddr4, Locations: []string{"l1"}, Cache: "c1", Compress: "cp"})
 	}
 	return c
+}
+
+const deadAddr = "10.0.9.9:7009"
+
+func (st *c16State) u1Servers() []UpstreamSrv {
+	if st.u1Dead {
+		return []UpstreamSrv{{Addr: "http://" + deadAddr}, {Addr: "http://" + originA}}
+	}
+	return []UpstreamSrv{{Addr: "http://" + originA}}
 }
 
 func (st *c16State) u2Servers() []UpstreamSrv {
@@ -243,6 +253,7 @@ func genC16(g *Gen) *Plan {
 	for i := 0; i < g.n(0, 4); i++ {
 		st.mutate(g)
 	}
+	st.u1Dead = g.p(0.25)
 	p.Configs = []Config{st.config()}
 	nconf := g.n(1, 4)
 	var notes []string
@@ -264,6 +275,13 @@ func genC16(g *Gen) *Plan {
 				op := reqOp("GET", hostA, stableKeys[g.R.IntN(len(stableKeys))])
 				op.Tag = "stable"
 				p.Ops = append(p.Ops, op)
+			} else if g.p(0.15) {
+				// a request to a server that updates add and remove: it may be refused or cut short
+				// by the removal, it must not hang (nor keep the removed server from going away)
+				op := reqOp("GET", hostA, pick(g, "/var/a", "/stable/k0"))
+				op.Addr = pick(g, srvAddr3, srvAddr4)
+				op.Tag = "volatile"
+				p.Ops = append(p.Ops, op)
 			} else {
 				op := reqOp("GET", hostA, pick(g, "/var/a", "/var/x/b", "/var/c?q=1"))
 				op.Addr = srvAddr2
@@ -273,6 +291,10 @@ func genC16(g *Gen) *Plan {
 				p.Ops = append(p.Ops, op)
 			}
 		}
+	}
+	if st.u1Dead {
+		// the first server of the stable upstream answers no connection attempt from now on
+		p.Ops = append(p.Ops, Op{Kind: OpHealth, Server: deadAddr, Net: "blackhole"})
 	}
 	// warm the stable cache
 	for _, k := range stableKeys {
